@@ -1651,7 +1651,11 @@ class TeX(object):
             # character token
             elif t == '`':
                 for t in self.itertokens():
-                    num = number(sign * ord(t))
+                    # an active character is named `active::<char>'
+                    num = number(sign * ord(str(t).split('::').pop()))
+                    # TeX: `<character token><one optional space>
+                    if optspace:
+                        self.readOneOptionalSpace()
                     break
             break
         ParameterCommand.enable()
